@@ -137,6 +137,9 @@ class CarbonClientProtocol(object):
         instrumentation.prior_stats.get('metricsReceived', 0)))
 
     self.sendDatapointsNow(self.factory.takeSomeFromQueue())
+    # Compare what is left in the queue (not what was in it before this batch was
+    # taken) with the low watermark, or a batch that empties the queue never resumes
+    queueSize = self.factory.queueSize
     if (self.factory.queueFull.called and queueSize < SEND_QUEUE_LOW_WATERMARK):
       if not self.factory.queueHasSpace.called:
         self.factory.queueHasSpace.callback(queueSize)
